@@ -4,7 +4,890 @@ From L21 Require Import Geom.ContainsSpec Geom.Contains Geom.ContainsCheck.
 Import ListNotations.
 Local Open Scope Z_scope.
 
-(** ** The code before the repair is refuted by two independent witnesses *)
+(** ** boolean reflection helper *)
+Ltac b2p :=
+  repeat match goal with
+  | H : _ && _ = true |- _ => apply andb_true_iff in H; destruct H
+  | H : _ || _ = false |- _ => apply orb_false_iff in H; destruct H
+  | H : negb _ = true |- _ => apply negb_true_iff in H
+  | H : negb _ = false |- _ => apply negb_false_iff in H
+  | H : (_ <=? _) = true |- _ => apply Z.leb_le in H
+  | H : (_ <=? _) = false |- _ => apply Z.leb_gt in H
+  | H : (_ <? _) = true |- _ => apply Z.ltb_lt in H
+  | H : (_ <? _) = false |- _ => apply Z.ltb_ge in H
+  | H : (_ =? _) = true |- _ => apply Z.eqb_eq in H
+  | H : (_ =? _) = false |- _ => apply Z.eqb_neq in H
+  end.
+
+(** ** Rect::contains *)
+Lemma rect_contains_spec : forall p0 p1 q, rect_contains p0 p1 q = true <-> in_box p0 p1 q.
+Proof.
+  intros p0 p1 q. unfold rect_contains, in_box, X, Y, px, py.
+  rewrite !andb_true_iff, !Z.leb_le. tauto.
+Qed.
+
+(** ** the model's edge list is the specification's edge list *)
+Lemma chain_combine : forall (l : list pt) a x, chain (a :: l ++ [x]) = combine (a :: l) (l ++ [x]).
+Proof.
+  induction l as [|b l IH]; intros a x.
+  - reflexivity.
+  - change (chain (a :: (b :: l) ++ [x])) with ((a, b) :: chain (b :: l ++ [x])).
+    rewrite IH. reflexivity.
+Qed.
+
+Lemma seg_pairs_edges : forall P, seg_pairs P = edges P.
+Proof.
+  intros [|p0 tl]; [reflexivity|].
+  unfold seg_pairs, edges. change ((p0 :: tl) ++ [p0]) with (p0 :: tl ++ [p0]).
+  symmetry. apply chain_combine.
+Qed.
+
+(** ** one edge of the scan *)
+Definition edge_class (a b q : pt) : option Z :=
+  if y_in_range a b q then
+    if Y b =? Y a then (if x_in_range a b q then None else Some 0)
+    else let cr := cross a b q in
+      if cr =? 0 then None
+      else if Y a <? Y b then (if (Y q <? Y b) && (0 <? cr) then Some 1 else Some 0)
+      else (if (Y q <? Y a) && (cr <? 0) then Some (-1) else Some 0)
+  else Some 0.
+
+Definition edge_ovf (a b q : pt) : bool :=
+  y_in_range a b q && negb (Y b =? Y a) &&
+  negb (all_in_i128 [X b - X a; Y q - Y a; (X b - X a) * (Y q - Y a); X q - X a; Y b - Y a;
+                     (X q - X a) * (Y b - Y a);
+                     (X b - X a) * (Y q - Y a) - (X q - X a) * (Y b - Y a)]).
+
+Lemma poly_scan_step : forall a b es q w,
+  poly_scan ((a, b) :: es) q w =
+  if edge_ovf a b q then Ovf
+  else match edge_class a b q with None => Ret true | Some d => poly_scan es q (w + d) end.
+Proof.
+  intros a b es q w. cbn [poly_scan]. unfold edge_ovf, edge_class, cross.
+  change px with X. change py with Y.
+  destruct (y_in_range a b q); cbn [andb negb]; [|f_equal; lia].
+  destruct (Y b =? Y a); cbn [andb negb].
+  - destruct (x_in_range a b q); [reflexivity|f_equal; lia].
+  - destruct (all_in_i128 _); cbn [negb]; [|reflexivity].
+    destruct (_ =? 0); [reflexivity|].
+    destruct (Y a <? Y b).
+    + destruct ((Y q <? Y b) && _); f_equal; lia.
+    + destruct ((Y q <? Y a) && _); f_equal; lia.
+Qed.
+
+Lemma edge_class_none : forall a b q, edge_class a b q = None <-> on_seg a b q.
+Proof.
+  intros [ax ay] [bx by_] [qx qy].
+  unfold edge_class, on_seg, in_seg_box, y_in_range, x_in_range, cross, X, Y, px, py; cbn [fst snd].
+  split.
+  - intros H.
+    destruct ((Z.min ay by_ <=? qy) && (qy <=? Z.max ay by_)) eqn:Hy; [|discriminate]. b2p.
+    destruct (by_ =? ay) eqn:Hh; b2p.
+    + destruct ((Z.min ax bx <=? qx) && (qx <=? Z.max ax bx)) eqn:Hx; [|discriminate]. b2p.
+      subst by_. assert (qy = ay) by lia. subst qy. split; [ring|lia].
+    + destruct (_ =? 0) eqn:Hc; b2p.
+      * split; [exact Hc|]. split; [|lia]. nia.
+      * destruct (ay <? by_); [destruct (_ && _)|destruct (_ && _)]; discriminate.
+  - intros [Hc [Hx Hy]].
+    destruct ((Z.min ay by_ <=? qy) && (qy <=? Z.max ay by_)) eqn:Hy'.
+    2:{ apply andb_false_iff in Hy'. destruct Hy' as [Hy'|Hy']; b2p; lia. }
+    destruct (by_ =? ay) eqn:Hh; b2p.
+    + destruct ((Z.min ax bx <=? qx) && (qx <=? Z.max ax bx)) eqn:Hx'; [reflexivity|].
+      apply andb_false_iff in Hx'. destruct Hx' as [Hx'|Hx']; b2p; lia.
+    + rewrite Hc. reflexivity.
+Qed.
+
+Lemma edge_class_some : forall a b q d, edge_class a b q = Some d -> d = wind_edge a b q.
+Proof.
+  intros [ax ay] [bx by_] [qx qy] d.
+  unfold edge_class, wind_edge, up_right, down_right, y_in_range, x_in_range, cross, X, Y, px, py; cbn [fst snd].
+  set (cr := (bx - ax) * (qy - ay) - (qx - ax) * (by_ - ay)).
+  intros H.
+  destruct ((Z.min ay by_ <=? qy) && (qy <=? Z.max ay by_)) eqn:Hy.
+  - b2p. destruct (by_ =? ay) eqn:Hh; b2p.
+    + destruct (_ && _) in H; [discriminate|]. injection H as <-.
+      subst by_.
+      replace (ay <=? qy) with true by (symmetry; apply Z.leb_le; lia).
+      replace (qy <? ay) with false by (symmetry; apply Z.ltb_ge; lia).
+      reflexivity.
+    + destruct (cr =? 0) eqn:Hc; [discriminate|]. b2p.
+      destruct (ay <? by_) eqn:Hud; b2p.
+      * replace (by_ <=? qy) with (negb (qy <? by_)) by (rewrite Z.ltb_antisym, negb_involutive; reflexivity).
+        replace (ay <=? qy) with true by (symmetry; apply Z.leb_le; lia).
+        replace (qy <? ay) with false by (symmetry; apply Z.ltb_ge; lia).
+        destruct (qy <? by_); cbn [andb negb] in *; [|injection H as <-; reflexivity].
+        destruct (0 <? cr); cbn [andb negb] in *; injection H as <-; reflexivity.
+      * replace (ay <=? qy) with (negb (qy <? ay)) by (rewrite Z.ltb_antisym, negb_involutive; reflexivity).
+        replace (by_ <=? qy) with true by (symmetry; apply Z.leb_le; lia).
+        replace (qy <? by_) with false by (symmetry; apply Z.ltb_ge; lia).
+        destruct (qy <? ay); cbn [andb negb] in *; [|injection H as <-; reflexivity].
+        destruct (cr <? 0); cbn [andb negb] in *; injection H as <-; reflexivity.
+  - injection H as <-.
+    apply andb_false_iff in Hy.
+    destruct ((ay <=? qy) && (qy <? by_)) eqn:H1.
+    { b2p. destruct Hy; b2p; lia. }
+    cbn [andb].
+    destruct ((by_ <=? qy) && (qy <? ay)) eqn:H2.
+    { b2p. destruct Hy; b2p; lia. }
+    reflexivity.
+Qed.
+
+(** signed crossing sum over a list of edges *)
+Definition wsum (es : list (pt * pt)) (q : pt) : Z :=
+  fold_right (fun e n => wind_edge (fst e) (snd e) q + n) 0 es.
+
+Lemma winding_wsum : forall P q, winding P q = wsum (edges P) q.
+Proof. reflexivity. Qed.
+
+Lemma poly_scan_spec : forall es q w b,
+  poly_scan es q w = Ret b ->
+  (b = true <-> (exists e, In e es /\ on_seg (fst e) (snd e) q) \/ w + wsum es q <> 0).
+Proof.
+  induction es as [|[a b0] es IH]; intros q w b H.
+  - cbn in H. injection H as <-. cbn [wsum fold_right].
+    rewrite negb_true_iff, Z.eqb_neq, Z.add_0_r.
+    split; [intros Hw; right; exact Hw|].
+    intros [[e [[] _]]|Hw]; exact Hw.
+  - rewrite poly_scan_step in H.
+    destruct (edge_ovf a b0 q); [discriminate|].
+    destruct (edge_class a b0 q) as [d|] eqn:Hc.
+    + pose proof (edge_class_some _ _ _ _ Hc) as Hd.
+      assert (Hn : ~ on_seg a b0 q).
+      { intros Ho. apply edge_class_none in Ho. congruence. }
+      specialize (IH q (w + d) b H). rewrite IH.
+      cbn [wsum fold_right fst snd]. fold (wsum es q). rewrite <- Hd.
+      split.
+      * intros [[e [Hin Ho]]|Hw]; [left; exists e; split; [right; exact Hin|exact Ho]|right; lia].
+      * intros [[e [[<-|Hin] Ho]]|Hw]; [contradiction|left; exists e; split; assumption|right; lia].
+    + injection H as <-. apply edge_class_none in Hc.
+      split; [intros _|reflexivity]. left. exists (a, b0). split; [left; reflexivity|exact Hc].
+Qed.
+
+(** ** sums over edge lists; telescoping over closed chains *)
+Definition esum (f : pt -> pt -> Z) (es : list (pt * pt)) : Z :=
+  fold_right (fun e n => f (fst e) (snd e) + n) 0 es.
+
+Lemma esum_cons : forall f a b es, esum f ((a, b) :: es) = f a b + esum f es.
+Proof. reflexivity. Qed.
+
+Lemma esum_app : forall f l1 l2, esum f (l1 ++ l2) = esum f l1 + esum f l2.
+Proof.
+  intros f l1 l2. induction l1 as [|[a b] l1 IH]; [reflexivity|].
+  cbn [app]. rewrite !esum_cons, IH. ring.
+Qed.
+
+Lemma esum_ext : forall f g es,
+  (forall e, In e es -> f (fst e) (snd e) = g (fst e) (snd e)) -> esum f es = esum g es.
+Proof.
+  intros f g es. induction es as [|[a b] es IH]; intros H; [reflexivity|].
+  rewrite !esum_cons. rewrite IH by (intros e He; apply H; right; exact He).
+  pose proof (H (a, b) (or_introl eq_refl)) as Hab. cbn [fst snd] in Hab. rewrite Hab. reflexivity.
+Qed.
+
+Lemma last_cons_default : forall (l : list pt) a b, last (b :: l) a = last l b.
+Proof.
+  induction l as [|c l IH]; intros a b; [reflexivity|].
+  change (last (b :: c :: l) a) with (last (c :: l) a).
+  rewrite (IH a c), (IH b c). reflexivity.
+Qed.
+
+Lemma esum_tele : forall (g : pt -> Z) l a,
+  esum (fun x y => g x - g y) (chain (a :: l)) = g a - g (last l a).
+Proof.
+  intros g. induction l as [|b l IH]; intros a.
+  - cbn. ring.
+  - change (chain (a :: b :: l)) with ((a, b) :: chain (b :: l)).
+    rewrite esum_cons, IH.
+    rewrite last_cons_default. ring.
+Qed.
+
+Lemma esum_closed : forall (g : pt -> Z) P, esum (fun x y => g x - g y) (edges P) = 0.
+Proof.
+  intros g [|p0 tl]; [reflexivity|].
+  unfold edges. change ((p0 :: tl) ++ [p0]) with (p0 :: (tl ++ [p0])).
+  rewrite esum_tele, last_last. ring.
+Qed.
+
+Lemma wsum_esum : forall es q, wsum es q = esum (fun a b => wind_edge a b q) es.
+Proof. reflexivity. Qed.
+
+(** the end points of every edge are vertices *)
+Lemma chain_in : forall l a b, In (a, b) (chain l) -> In a l /\ In b l.
+Proof.
+  induction l as [|x l IH]; intros a b H; [destruct H|].
+  destruct l as [|y l]; [destruct H|].
+  change (chain (x :: y :: l)) with ((x, y) :: chain (y :: l)) in H.
+  destruct H as [H|H].
+  - injection H as <- <-. split; [left; reflexivity|right; left; reflexivity].
+  - apply IH in H. destruct H as [Ha Hb]. split; right; assumption.
+Qed.
+
+Lemma edges_in : forall P a b, In (a, b) (edges P) -> In a P /\ In b P.
+Proof.
+  intros [|p0 tl] a b H; [destruct H|].
+  unfold edges in H. apply chain_in in H. destruct H as [Ha Hb].
+  split.
+  - apply in_app_or in Ha. destruct Ha as [Ha|[<-|[]]]; [exact Ha|left; reflexivity].
+  - apply in_app_or in Hb. destruct Hb as [Hb|[<-|[]]]; [exact Hb|left; reflexivity].
+Qed.
+
+(** ** a point outside the bounding box of the vertices is outside the region *)
+Definition above (q p : pt) : Z := if py q <? py p then 1 else 0.
+
+Lemma wind_edge_left : forall a b q, px q < px a -> px q < px b ->
+  wind_edge a b q = above q b - above q a.
+Proof.
+  intros [ax ay] [bx by_] [qx qy]. unfold wind_edge, up_right, down_right, above, cross, px, py; cbn [fst snd].
+  intros Ha Hb.
+  destruct (qy <? by_) eqn:H1, (qy <? ay) eqn:H2; b2p.
+  - replace (ay <=? qy) with false by (symmetry; apply Z.leb_gt; lia).
+    replace (by_ <=? qy) with false by (symmetry; apply Z.leb_gt; lia). reflexivity.
+  - replace (ay <=? qy) with true by (symmetry; apply Z.leb_le; lia).
+    replace (0 <? (bx - ax) * (qy - ay) - (qx - ax) * (by_ - ay)) with true; [reflexivity|].
+    symmetry; apply Z.ltb_lt. nia.
+  - replace (ay <=? qy) with false by (symmetry; apply Z.leb_gt; lia).
+    replace (by_ <=? qy) with true by (symmetry; apply Z.leb_le; lia).
+    replace ((bx - ax) * (qy - ay) - (qx - ax) * (by_ - ay) <? 0) with true; [reflexivity|].
+    symmetry; apply Z.ltb_lt. nia.
+  - rewrite !andb_false_r. cbn [andb]. reflexivity.
+Qed.
+
+Lemma wind_edge_right : forall a b q, px a < px q -> px b < px q -> wind_edge a b q = 0.
+Proof.
+  intros [ax ay] [bx by_] [qx qy]. unfold wind_edge, up_right, down_right, cross, px, py; cbn [fst snd].
+  intros Ha Hb.
+  destruct ((ay <=? qy) && (qy <? by_)) eqn:H1; cbn [andb].
+  - b2p. replace (0 <? (bx - ax) * (qy - ay) - (qx - ax) * (by_ - ay)) with false.
+    2:{ symmetry; apply Z.ltb_ge. nia. }
+    destruct ((by_ <=? qy) && (qy <? ay)) eqn:H2; cbn [andb]; [b2p; lia|reflexivity].
+  - destruct ((by_ <=? qy) && (qy <? ay)) eqn:H2; cbn [andb]; [|reflexivity].
+    b2p. replace ((bx - ax) * (qy - ay) - (qx - ax) * (by_ - ay) <? 0) with false; [reflexivity|].
+    symmetry; apply Z.ltb_ge. nia.
+Qed.
+
+Lemma wind_edge_yout : forall a b q,
+  (py q < py a /\ py q < py b) \/ (py a < py q /\ py b < py q) -> wind_edge a b q = 0.
+Proof.
+  intros [ax ay] [bx by_] [qx qy]. unfold wind_edge, up_right, down_right, px, py; cbn [fst snd].
+  intros H.
+  destruct ((ay <=? qy) && (qy <? by_)) eqn:H1; [b2p; lia|].
+  destruct ((by_ <=? qy) && (qy <? ay)) eqn:H2; [b2p; lia|]. reflexivity.
+Qed.
+
+Lemma esum_zero : forall f es, (forall e, In e es -> f (fst e) (snd e) = 0) -> esum f es = 0.
+Proof.
+  intros f es. induction es as [|[a b] es IH]; intros H; [reflexivity|].
+  rewrite esum_cons, IH by (intros e He; apply H; right; exact He).
+  pose proof (H (a, b) (or_introl eq_refl)) as Hab. cbn [fst snd] in Hab. lia.
+Qed.
+
+Definition outside_bbox (P : list pt) (q : pt) : Prop :=
+  (forall p, In p P -> px q < px p) \/ (forall p, In p P -> px p < px q) \/
+  (forall p, In p P -> py q < py p) \/ (forall p, In p P -> py p < py q).
+
+Lemma outside_bbox_not_in_region_nz : forall P q, outside_bbox P q -> ~ in_region_nz P q.
+Proof.
+  intros P q Hout [[[a b] [Hin [_ [Hx Hy]]]]|Hw].
+  - cbn [fst snd] in Hx, Hy. apply edges_in in Hin. destruct Hin as [Ha Hb].
+    destruct Hout as [H|[H|[H|H]]]; pose proof (H _ Ha); pose proof (H _ Hb); lia.
+  - apply Hw. rewrite winding_wsum, wsum_esum.
+    destruct Hout as [H|[H|[H|H]]].
+    + rewrite (esum_ext _ (fun a b => above q b - above q a)).
+      2:{ intros [a b] He. apply edges_in in He. destruct He. apply wind_edge_left; apply H; assumption. }
+      pose proof (esum_closed (fun p => - above q p) P) as Hc.
+      rewrite <- Hc. apply esum_ext. intros; ring.
+    + apply esum_zero. intros [a b] He. apply edges_in in He. destruct He.
+      apply wind_edge_right; apply H; assumption.
+    + apply esum_zero. intros [a b] He. apply edges_in in He. destruct He as [Ha Hb].
+      apply wind_edge_yout. left. split; apply H; assumption.
+    + apply esum_zero. intros [a b] He. apply edges_in in He. destruct He as [Ha Hb].
+      apply wind_edge_yout. right. split; apply H; assumption.
+Qed.
+
+(** the model's bounding box *)
+Lemma points_bbox_bounds : forall ps bb p,
+  In p ps ->
+  let r := fold_left bbox_union_pt ps bb in
+  X (fst r) <= X p <= X (snd r) /\ Y (fst r) <= Y p <= Y (snd r).
+Proof.
+  assert (Hmono : forall ps bb,
+    let r := fold_left bbox_union_pt ps bb in
+    X (fst r) <= X (fst bb) /\ X (snd bb) <= X (snd r) /\ Y (fst r) <= Y (fst bb) /\ Y (snd bb) <= Y (snd r)).
+  { induction ps as [|p ps IH]; intros bb; cbn [fold_left].
+    - lia.
+    - specialize (IH (bbox_union_pt bb p)). cbv zeta in IH.
+      destruct bb as [[b0x b0y] [b1x b1y]]. unfold bbox_union_pt, X, Y in *. cbn [fst snd] in *. lia. }
+  induction ps as [|p0 ps IH]; intros bb p Hin; [destruct Hin|].
+  cbn [fold_left]. destruct Hin as [<-|Hin].
+  - specialize (Hmono ps (bbox_union_pt bb p0)). cbv zeta in Hmono.
+    destruct bb as [[b0x b0y] [b1x b1y]]. unfold bbox_union_pt, X, Y in *. cbn [fst snd] in *. lia.
+  - apply IH. exact Hin.
+Qed.
+
+Lemma bbox_false_outside : forall P q, bbox_contains (points_bbox P) q = false -> outside_bbox P q.
+Proof.
+  intros P q H. unfold points_bbox in H.
+  pose proof (fun p Hp => points_bbox_bounds P bbox_empty p Hp) as Hb. cbv zeta in Hb.
+  destruct (fold_left bbox_union_pt P bbox_empty) as [b0 b1]. unfold bbox_contains in H.
+  cbn [fst snd] in Hb. unfold X, Y in *. unfold outside_bbox, px, py.
+  apply andb_false_iff in H. destruct H as [H|H]; [apply andb_false_iff in H; destruct H as [H|H];
+    [apply andb_false_iff in H; destruct H as [H|H]|]|]; b2p.
+  - left. intros p Hp. specialize (Hb p Hp). lia.
+  - right; left. intros p Hp. specialize (Hb p Hp). lia.
+  - right; right; left. intros p Hp. specialize (Hb p Hp). lia.
+  - right; right; right. intros p Hp. specialize (Hb p Hp). lia.
+Qed.
+
+(** ** Polygon::contains (repaired) = the closed region, non-zero-winding rule, for ALL vertex lists *)
+Theorem poly_contains_nz : forall P q b,
+  poly_contains P q = Ret b -> (b = true <-> in_region_nz P q).
+Proof.
+  intros P q b H. unfold poly_contains in H.
+  destruct (bbox_contains (points_bbox P) q) eqn:Hbb; cbn [negb] in H.
+  - rewrite seg_pairs_edges in H. apply poly_scan_spec in H. rewrite H.
+    unfold in_region_nz, on_boundary. rewrite winding_wsum. rewrite Z.add_0_l. reflexivity.
+  - injection H as <-. apply bbox_false_outside in Hbb.
+    split; [discriminate|]. intros Hr. exfalso. exact (outside_bbox_not_in_region_nz _ _ Hbb Hr).
+Qed.
+
+(** ** no overflow: coordinates of magnitude below 2^62 *)
+Definition coord_ok (z : Z) : Prop := Z.abs z < 2 ^ 62.
+Definition pt_ok (p : pt) : Prop := coord_ok (px p) /\ coord_ok (py p).
+
+Lemma edge_ovf_false : forall a b q, pt_ok a -> pt_ok b -> pt_ok q -> edge_ovf a b q = false.
+Proof.
+  intros [ax ay] [bx by_] [qx qy] [Ha1 Ha2] [Hb1 Hb2] [Hq1 Hq2].
+  unfold coord_ok, px, py in *; cbn [fst snd] in *.
+  unfold edge_ovf, X, Y; cbn [fst snd].
+  destruct (y_in_range _ _ _); [|reflexivity]. destruct (_ =? _); [reflexivity|]. cbn [andb negb].
+  apply negb_false_iff.
+  assert (H62 : 2 ^ 62 = 4611686018427387904) by reflexivity.
+  assert (Hin : forall z, Z.abs z < 2 ^ 127 -> in_i128 z = true).
+  { intros z Hz. unfold in_i128, i128_min, i128_max.
+    assert (2 ^ 126 = 85070591730234615865843651857942052864) by reflexivity.
+    assert (2 ^ 127 = 170141183460469231731687303715884105728) by reflexivity.
+    apply andb_true_iff; split; apply Z.leb_le; lia. }
+  assert (H126 : 2 ^ 126 = 2 ^ 63 * 2 ^ 63) by reflexivity.
+  assert (H63 : 2 ^ 63 = 9223372036854775808) by reflexivity.
+  assert (Hd : forall u v, Z.abs u < 2 ^ 62 -> Z.abs v < 2 ^ 62 -> Z.abs (u - v) < 2 ^ 63) by (intros; lia).
+  assert (Hp : forall u v, Z.abs u < 2 ^ 63 -> Z.abs v < 2 ^ 63 -> Z.abs (u * v) < 2 ^ 126).
+  { intros u v Hu Hv. rewrite Z.abs_mul, H126.
+    destruct (Z.eq_dec (Z.abs v) 0) as [->|Hnz]; [lia|].
+    apply Z.le_lt_trans with (Z.abs u * 2 ^ 63); [|apply Z.mul_lt_mono_pos_r; lia].
+    apply Z.mul_le_mono_nonneg_l; lia. }
+  pose proof (Hd _ _ Hb1 Ha1). pose proof (Hd _ _ Hq2 Ha2). pose proof (Hd _ _ Hq1 Ha1). pose proof (Hd _ _ Hb2 Ha2).
+  pose proof (Hp (bx - ax) (qy - ay) ltac:(assumption) ltac:(assumption)).
+  pose proof (Hp (qx - ax) (by_ - ay) ltac:(assumption) ltac:(assumption)).
+  assert (2 ^ 126 = 85070591730234615865843651857942052864) by reflexivity.
+  assert (2 ^ 127 = 170141183460469231731687303715884105728) by reflexivity.
+  cbn [all_in_i128 forallb]. rewrite !Hin; [reflexivity| | | | | | |]; lia.
+Qed.
+
+Lemma poly_scan_total : forall es q w,
+  (forall a b, In (a, b) es -> edge_ovf a b q = false) -> exists b, poly_scan es q w = Ret b.
+Proof.
+  induction es as [|[a b0] es IH]; intros q w H.
+  - eexists; reflexivity.
+  - rewrite poly_scan_step. rewrite (H a b0) by (left; reflexivity).
+    destruct (edge_class a b0 q); [|eexists; reflexivity].
+    apply IH. intros a' b' Hin. apply H. right. exact Hin.
+Qed.
+
+Theorem poly_contains_total : forall P q,
+  Forall pt_ok P -> pt_ok q -> exists b, poly_contains P q = Ret b.
+Proof.
+  intros P q HP Hq. unfold poly_contains.
+  destruct (negb _); [eexists; reflexivity|].
+  apply poly_scan_total. intros a b Hin. rewrite seg_pairs_edges in Hin.
+  apply edges_in in Hin. destruct Hin as [Ha Hb]. rewrite Forall_forall in HP.
+  apply edge_ovf_false; auto.
+Qed.
+
+(** ** crossings and winding as edge sums *)
+Definition cr01 (q a b : pt) : Z := if crosses_right a b q then 1 else 0.
+Definition wnd (q a b : pt) : Z := wind_edge a b q.
+
+Lemma crossings_esum : forall P q, crossings P q = esum (cr01 q) (edges P).
+Proof. reflexivity. Qed.
+Lemma winding_esum : forall P q, winding P q = esum (wnd q) (edges P).
+Proof. reflexivity. Qed.
+
+Lemma up_down_excl : forall a b q, up_right a b q = true -> down_right a b q = false.
+Proof.
+  intros a b q H. unfold up_right, down_right in *. b2p.
+  destruct (py b <=? py q) eqn:E; [b2p; lia|reflexivity].
+Qed.
+
+Lemma cr01_abs_wnd : forall q a b, cr01 q a b = Z.abs (wnd q a b).
+Proof.
+  intros q a b. unfold cr01, wnd, wind_edge, crosses_right.
+  destruct (up_right a b q) eqn:U; [reflexivity|].
+  destruct (down_right a b q); reflexivity.
+Qed.
+
+Lemma odd_abs : forall z, Z.odd (Z.abs z) = Z.odd z.
+Proof. intros z. destruct z; reflexivity. Qed.
+
+Lemma esum_odd_abs : forall f es, Z.odd (esum (fun a b => Z.abs (f a b)) es) = Z.odd (esum f es).
+Proof.
+  intros f es. induction es as [|[a b] es IH]; [reflexivity|].
+  rewrite !esum_cons, !Z.odd_add, IH, odd_abs. reflexivity.
+Qed.
+
+Lemma crossings_winding_parity : forall P q, Z.odd (crossings P q) = Z.odd (winding P q).
+Proof.
+  intros P q. rewrite crossings_esum, winding_esum.
+  rewrite (esum_ext (cr01 q) (fun a b => Z.abs (wnd q a b))) by (intros; apply cr01_abs_wnd).
+  apply esum_odd_abs.
+Qed.
+
+(** even-odd region is contained in the non-zero-winding region; they agree when the signed
+    count is -1, 0 or 1 (as it is for simple polygons, by the Jordan curve theorem) *)
+Lemma in_region_in_nz : forall P q, in_region P q -> in_region_nz P q.
+Proof.
+  intros P q [H|H]; [left; exact H|right].
+  rewrite crossings_winding_parity in H. intros E. rewrite E in H. discriminate.
+Qed.
+
+Lemma in_region_nz_iff : forall P q, -1 <= winding P q <= 1 -> (in_region P q <-> in_region_nz P q).
+Proof.
+  intros P q Hw. split; [apply in_region_in_nz|].
+  intros [H|H]; [left; exact H|right].
+  rewrite crossings_winding_parity.
+  assert (winding P q = 1 \/ winding P q = -1) as [->| ->] by lia; reflexivity.
+Qed.
+
+(** ** the decision procedures of the checker decide the specification *)
+Lemma on_segb_spec : forall a b q, on_segb a b q = true <-> on_seg a b q.
+Proof.
+  intros a b q. unfold on_segb, in_seg_boxb, on_seg, in_seg_box.
+  rewrite !andb_true_iff, !Z.leb_le, Z.eqb_eq. tauto.
+Qed.
+
+Lemma on_boundaryb_spec : forall P q, on_boundaryb P q = true <-> on_boundary P q.
+Proof.
+  intros P q. unfold on_boundaryb, on_boundary. rewrite existsb_exists.
+  split; intros [e [H1 H2]]; exists e; (split; [exact H1|apply on_segb_spec; exact H2]).
+Qed.
+
+Lemma in_regionb_spec : forall P q, in_regionb P q = true <-> in_region P q.
+Proof.
+  intros P q. unfold in_regionb, in_region. rewrite orb_true_iff, on_boundaryb_spec. reflexivity.
+Qed.
+
+Lemma in_region_nzb_spec : forall P q, in_region_nzb P q = true <-> in_region_nz P q.
+Proof.
+  intros P q. unfold in_region_nzb, in_region_nz.
+  rewrite orb_true_iff, on_boundaryb_spec, negb_true_iff, Z.eqb_neq. reflexivity.
+Qed.
+
+(** ** invariance under anything that permutes / maps the edge list edge by edge *)
+Lemma esum_perm : forall f es es', Permutation es es' -> esum f es = esum f es'.
+Proof.
+  intros f es es' H. induction H as [|[a b] l l' H IH|[a b] [c d] l|l l' l'' H1 IH1 H2 IH2].
+  - reflexivity.
+  - rewrite !esum_cons, IH. reflexivity.
+  - rewrite !esum_cons. ring.
+  - congruence.
+Qed.
+
+Lemma esum_map : forall f (phi : pt * pt -> pt * pt) es,
+  esum f (map phi es) = esum (fun a b => f (fst (phi (a, b))) (snd (phi (a, b)))) es.
+Proof.
+  intros f phi es. induction es as [|[a b] es IH]; [reflexivity|].
+  cbn [map]. destruct (phi (a, b)) as [a' b'] eqn:E. rewrite !esum_cons, IH, E. reflexivity.
+Qed.
+
+Section EdgeMap.
+  Variables (P P' : list pt) (q q' : pt) (phi : pt * pt -> pt * pt).
+  Hypothesis Hperm : Permutation (edges P') (map phi (edges P)).
+  Hypothesis Hon : forall a b, on_seg (fst (phi (a, b))) (snd (phi (a, b))) q' <-> on_seg a b q.
+
+  Lemma on_boundary_edge_map : on_boundary P' q' <-> on_boundary P q.
+  Proof.
+    unfold on_boundary. split.
+    - intros [e [Hin Ho]]. apply (Permutation_in _ Hperm) in Hin. apply in_map_iff in Hin.
+      destruct Hin as [[a b] [<- Hin]]. exists (a, b). split; [exact Hin|]. apply Hon. exact Ho.
+    - intros [[a b] [Hin Ho]]. exists (phi (a, b)). split.
+      + apply (Permutation_in _ (Permutation_sym Hperm)). apply in_map. exact Hin.
+      + apply Hon. exact Ho.
+  Qed.
+
+  Lemma in_region_edge_map :
+    (forall a b, cr01 q' (fst (phi (a, b))) (snd (phi (a, b))) = cr01 q a b) ->
+    (in_region P' q' <-> in_region P q).
+  Proof.
+    intros Hc. unfold in_region. rewrite on_boundary_edge_map.
+    rewrite !crossings_esum, (esum_perm _ _ _ Hperm), esum_map.
+    rewrite (esum_ext _ (cr01 q)) by (intros [a b] _; apply Hc). reflexivity.
+  Qed.
+
+  Lemma in_region_nz_edge_map : forall s, (s = 1 \/ s = -1) ->
+    (forall a b, wnd q' (fst (phi (a, b))) (snd (phi (a, b))) = s * wnd q a b) ->
+    (in_region_nz P' q' <-> in_region_nz P q).
+  Proof.
+    intros s Hs Hc. unfold in_region_nz. rewrite on_boundary_edge_map.
+    rewrite !winding_esum, (esum_perm _ _ _ Hperm), esum_map.
+    rewrite (esum_ext _ (fun a b => s * wnd q a b)) by (intros [a b] _; apply Hc).
+    assert (E : forall es, esum (fun a b => s * wnd q a b) es = s * esum (wnd q) es).
+    { induction es as [|[a b] es IH]; [cbn; ring|]. rewrite !esum_cons, IH. ring. }
+    rewrite E. destruct Hs as [-> | ->]; split; intros [H|H]; auto; right; lia.
+  Qed.
+End EdgeMap.
+
+(** ** cyclic shift of the vertex list *)
+Lemma chain_app : forall (l : list pt) x m, chain (l ++ x :: m) = chain (l ++ [x]) ++ chain (x :: m).
+Proof.
+  induction l as [|a l IH]; intros x m.
+  - reflexivity.
+  - destruct l as [|b l].
+    + reflexivity.
+    + change (chain ((a :: b :: l) ++ x :: m)) with ((a, b) :: chain ((b :: l) ++ x :: m)).
+      change (chain ((a :: b :: l) ++ [x])) with ((a, b) :: chain ((b :: l) ++ [x])).
+      rewrite IH. reflexivity.
+Qed.
+
+Lemma edges_rotate : forall l1 l2, Permutation (edges (l2 ++ l1)) (edges (l1 ++ l2)).
+Proof.
+  intros [|a l1] [|b l2]; rewrite ?app_nil_r; try apply Permutation_refl.
+  unfold edges. cbn [app].
+  replace (a :: (l1 ++ b :: l2) ++ [a]) with ((a :: l1) ++ b :: (l2 ++ [a])) by (cbn; rewrite <- app_assoc; reflexivity).
+  replace (b :: (l2 ++ a :: l1) ++ [b]) with ((b :: l2) ++ a :: (l1 ++ [b])) by (cbn; rewrite <- app_assoc; reflexivity).
+  rewrite (chain_app (a :: l1) b (l2 ++ [a])), (chain_app (b :: l2) a (l1 ++ [b])). apply Permutation_app_comm.
+Qed.
+
+Lemma map_id_edges : forall (es : list (pt * pt)), map (fun e => e) es = es.
+Proof. apply map_id. Qed.
+
+Theorem in_region_rotate : forall l1 l2 q, in_region (l2 ++ l1) q <-> in_region (l1 ++ l2) q.
+Proof.
+  intros l1 l2 q. apply (in_region_edge_map _ _ q q (fun e => e)).
+  - rewrite map_id. apply edges_rotate.
+  - reflexivity.
+  - reflexivity.
+Qed.
+
+Theorem in_region_nz_rotate : forall l1 l2 q, in_region_nz (l2 ++ l1) q <-> in_region_nz (l1 ++ l2) q.
+Proof.
+  intros l1 l2 q. apply (in_region_nz_edge_map _ _ q q (fun e => e)) with (s := 1).
+  - rewrite map_id. apply edges_rotate.
+  - reflexivity.
+  - left; reflexivity.
+  - intros; cbn [fst snd]; ring.
+Qed.
+
+(** ** reversal of the vertex list *)
+Definition swap (e : pt * pt) : pt * pt := (snd e, fst e).
+
+Lemma chain_rev : forall l, chain (rev l) = map swap (rev (chain l)).
+Proof.
+  induction l as [|a l IH]; [reflexivity|].
+  destruct l as [|b l]; [reflexivity|].
+  change (chain (a :: b :: l)) with ((a, b) :: chain (b :: l)).
+  cbn [rev] in *. rewrite <- app_assoc. cbn [app].
+  rewrite chain_app. rewrite IH. rewrite map_app. reflexivity.
+Qed.
+
+Lemma edges_rev : forall P, Permutation (edges (rev P)) (map swap (edges P)).
+Proof.
+  intros [|p0 tl]; [apply Permutation_refl|].
+  (* rev (p0 :: tl) = rev tl ++ [p0], a rotation of p0 :: rev tl *)
+  cbn [rev]. eapply Permutation_trans; [apply (edges_rotate [p0] (rev tl))|].
+  cbn [app]. unfold edges.
+  replace ((p0 :: rev tl) ++ [p0]) with (rev ((p0 :: tl) ++ [p0])).
+  2:{ rewrite rev_app_distr. cbn [rev app]. reflexivity. }
+  rewrite chain_rev. apply Permutation_map. apply Permutation_sym, Permutation_rev.
+Qed.
+
+Lemma cross_swap : forall a b q, cross b a q = - cross a b q.
+Proof. intros a b q. unfold cross. ring. Qed.
+
+Lemma on_seg_swap : forall a b q, on_seg b a q <-> on_seg a b q.
+Proof.
+  intros a b q. unfold on_seg, in_seg_box. rewrite cross_swap.
+  rewrite (Z.min_comm (px b)), (Z.max_comm (px b)), (Z.min_comm (py b)), (Z.max_comm (py b)). lia.
+Qed.
+
+Lemma up_right_swap : forall a b q, up_right b a q = down_right a b q.
+Proof.
+  intros a b q. unfold up_right, down_right. rewrite cross_swap. f_equal.
+  destruct (cross a b q <? 0) eqn:E, (0 <? - cross a b q) eqn:E'; b2p; try reflexivity; lia.
+Qed.
+
+Lemma down_right_swap : forall a b q, down_right b a q = up_right a b q.
+Proof.
+  intros a b q. unfold up_right, down_right. rewrite cross_swap. f_equal.
+  destruct (0 <? cross a b q) eqn:E, (- cross a b q <? 0) eqn:E'; b2p; try reflexivity; lia.
+Qed.
+
+Lemma wnd_swap : forall q a b, wnd q b a = - wnd q a b.
+Proof.
+  intros q a b. unfold wnd, wind_edge. rewrite (up_right_swap a b q), (down_right_swap a b q).
+  destruct (up_right a b q) eqn:U.
+  - rewrite (up_down_excl _ _ _ U). reflexivity.
+  - destruct (down_right a b q); reflexivity.
+Qed.
+
+Lemma cr01_swap : forall q a b, cr01 q b a = cr01 q a b.
+Proof. intros. rewrite !cr01_abs_wnd, wnd_swap. apply Z.abs_opp. Qed.
+
+Theorem in_region_rev : forall P q, in_region (rev P) q <-> in_region P q.
+Proof.
+  intros P q. apply (in_region_edge_map _ _ q q swap).
+  - apply edges_rev.
+  - intros a b. cbn [swap fst snd]. apply on_seg_swap.
+  - intros a b. cbn [swap fst snd]. apply cr01_swap.
+Qed.
+
+Theorem in_region_nz_rev : forall P q, in_region_nz (rev P) q <-> in_region_nz P q.
+Proof.
+  intros P q. apply (in_region_nz_edge_map _ _ q q swap) with (s := -1).
+  - apply edges_rev.
+  - intros a b. cbn [swap fst snd]. apply on_seg_swap.
+  - right; reflexivity.
+  - intros a b. cbn [swap fst snd]. rewrite wnd_swap. ring.
+Qed.
+
+(** ** translation *)
+Definition shift (d p : pt) : pt := (px p + px d, py p + py d).
+
+Lemma chain_map : forall (f : pt -> pt) l, chain (map f l) = map (fun e => (f (fst e), f (snd e))) (chain l).
+Proof.
+  intros f. induction l as [|a l IH]; [reflexivity|].
+  destruct l as [|b l]; [reflexivity|].
+  change (chain (map f (a :: b :: l))) with ((f a, f b) :: chain (map f (b :: l))).
+  rewrite IH. reflexivity.
+Qed.
+
+Lemma edges_map : forall (f : pt -> pt) P, edges (map f P) = map (fun e => (f (fst e), f (snd e))) (edges P).
+Proof.
+  intros f [|p0 tl]; [reflexivity|].
+  unfold edges. cbn [map]. rewrite <- chain_map. cbn [map]. rewrite map_app. reflexivity.
+Qed.
+
+Lemma cross_shift : forall d a b q, cross (shift d a) (shift d b) (shift d q) = cross a b q.
+Proof. intros d a b q. unfold cross, shift, px, py; cbn [fst snd]. ring. Qed.
+
+Lemma on_seg_shift : forall d a b q, on_seg (shift d a) (shift d b) (shift d q) <-> on_seg a b q.
+Proof.
+  intros d a b q. unfold on_seg, in_seg_box. rewrite cross_shift.
+  unfold shift, px, py; cbn [fst snd]. lia.
+Qed.
+
+Lemma leb_shift : forall x y d, (x + d <=? y + d) = (x <=? y).
+Proof. intros. destruct (x <=? y) eqn:E, (x + d <=? y + d) eqn:E'; b2p; try reflexivity; lia. Qed.
+Lemma ltb_shift : forall x y d, (x + d <? y + d) = (x <? y).
+Proof. intros. destruct (x <? y) eqn:E, (x + d <? y + d) eqn:E'; b2p; try reflexivity; lia. Qed.
+
+Lemma up_right_shift : forall d a b q, up_right (shift d a) (shift d b) (shift d q) = up_right a b q.
+Proof.
+  intros d a b q. unfold up_right. rewrite cross_shift. unfold shift, px, py; cbn [fst snd].
+  rewrite leb_shift, ltb_shift. reflexivity.
+Qed.
+
+Lemma down_right_shift : forall d a b q, down_right (shift d a) (shift d b) (shift d q) = down_right a b q.
+Proof.
+  intros d a b q. unfold down_right. rewrite cross_shift. unfold shift, px, py; cbn [fst snd].
+  rewrite leb_shift, ltb_shift. reflexivity.
+Qed.
+
+Theorem in_region_shift : forall d P q, in_region (map (shift d) P) (shift d q) <-> in_region P q.
+Proof.
+  intros d P q. apply (in_region_edge_map _ _ q (shift d q) (fun e => (shift d (fst e), shift d (snd e)))).
+  - rewrite edges_map. apply Permutation_refl.
+  - intros a b. cbn [fst snd]. apply on_seg_shift.
+  - intros a b. cbn [fst snd]. unfold cr01, crosses_right. rewrite up_right_shift, down_right_shift. reflexivity.
+Qed.
+
+Theorem in_region_nz_shift : forall d P q, in_region_nz (map (shift d) P) (shift d q) <-> in_region_nz P q.
+Proof.
+  intros d P q.
+  apply (in_region_nz_edge_map _ _ q (shift d q) (fun e => (shift d (fst e), shift d (snd e)))) with (s := 1).
+  - rewrite edges_map. apply Permutation_refl.
+  - intros a b. cbn [fst snd]. apply on_seg_shift.
+  - left; reflexivity.
+  - intros a b. cbn [fst snd]. unfold wnd, wind_edge. rewrite up_right_shift, down_right_shift. ring.
+Qed.
+
+(** ** combined form: the repaired Polygon::contains computes [in_region_nzb] *)
+Theorem poly_contains_eq_nzb : forall P q,
+  Forall pt_ok P -> pt_ok q -> poly_contains P q = Ret (in_region_nzb P q).
+Proof.
+  intros P q HP Hq. destruct (poly_contains_total P q HP Hq) as [b Hb]. rewrite Hb. f_equal.
+  pose proof (poly_contains_nz P q b Hb) as H. rewrite <- in_region_nzb_spec in H.
+  destruct b, (in_region_nzb P q); try reflexivity.
+  - symmetry. apply H. reflexivity.
+  - apply H. reflexivity.
+Qed.
+
+(** ** Path::contains *)
+
+(** the rectangle the code tests for segment a b with half-width hw: a segment with equal x
+    (zero-length segments included) is read as vertical, any other as horizontal *)
+Definition seg_cover (hw : Z) (a b q : pt) : Prop :=
+  (px a = px b /\ Z.abs (px q - px a) <= hw /\ Z.min (py a) (py b) <= py q <= Z.max (py a) (py b))
+  \/ (px a <> px b /\ py a = py b /\ Z.abs (py q - py a) <= hw /\ Z.min (px a) (px b) <= px q <= Z.max (px a) (px b)).
+
+Definition path_cover (hw : Z) (ps : list pt) (q : pt) : Prop :=
+  exists a b, In (a, b) (chain ps) /\ seg_cover hw a b q.
+
+Lemma path_scan_spec : forall ps hw q r, 0 <= hw ->
+  path_scan ps hw q = Ret r -> (r = true <-> path_cover hw ps q).
+Proof.
+  induction ps as [|a ps IH]; intros hw q r Hhw H.
+  - cbn in H. injection H as <-. split; [discriminate|]. intros [a [b [[] _]]].
+  - destruct ps as [|b ps].
+    + cbn in H. injection H as <-. split; [discriminate|]. intros [a' [b [[] _]]].
+    + change (chain (a :: b :: ps)) with ((a, b) :: chain (b :: ps)) in *.
+      assert (Hstep : forall c : bool,
+        (c = true <-> seg_cover hw a b q) ->
+        (if c then Ret true else path_scan (b :: ps) hw q) = Ret r ->
+        (r = true <-> path_cover hw (a :: b :: ps) q)).
+      { intros c Hc Hr. unfold path_cover.
+        change (chain (a :: b :: ps)) with ((a, b) :: chain (b :: ps)).
+        destruct c.
+        - injection Hr as <-. split; [intros _|reflexivity].
+          exists a, b. split; [left; reflexivity|apply Hc; reflexivity].
+        - rewrite (IH hw q r Hhw Hr). unfold path_cover. split.
+          + intros [a' [b' [Hin Hcv]]]. exists a', b'. split; [right; exact Hin|exact Hcv].
+          + intros [a' [b' [[Heq|Hin] Hcv]]].
+            * injection Heq as <- <-. apply Hc in Hcv. discriminate.
+            * exists a', b'. split; assumption. }
+      cbn [path_scan] in H.
+      destruct (X a =? X b) eqn:Ex; b2p.
+      * destruct (all_in_int _); [|discriminate].
+        refine (Hstep _ _ H).
+        rewrite rect_contains_spec. unfold in_box, seg_cover, X, Y, px, py in *; cbn [fst snd]. lia.
+      * destruct (Y a =? Y b) eqn:Ey; b2p; [|discriminate].
+        destruct (all_in_int _); [|discriminate].
+        refine (Hstep _ _ H).
+        rewrite rect_contains_spec. unfold in_box, seg_cover, X, Y, px, py in *; cbn [fst snd]. lia.
+Qed.
+
+Lemma path_scan_cons2 : forall a b ps hw q,
+  path_scan (a :: b :: ps) hw q =
+    if X a =? X b then
+      let x0 := X a - hw in let x1 := X a + hw in
+      if all_in_int [x0; x1] then
+        if rect_contains (x0, Y a) (x1, Y b) q then Ret true else path_scan (b :: ps) hw q
+      else Ovf
+    else if Y a =? Y b then
+      let y0 := Y a - hw in let y1 := Y a + hw in
+      if all_in_int [y0; y1] then
+        if rect_contains (X a, y0) (X b, y1) q then Ret true else path_scan (b :: ps) hw q
+      else Ovf
+    else Panic.
+Proof. reflexivity. Qed.
+
+(** no overflow, no panic: a Manhattan path with moderate coordinates *)
+Lemma path_scan_total : forall ps hw q,
+  Forall pt_ok ps -> 0 <= hw < 2 ^ 62 ->
+  Forall (fun e => manhattan_seg (fst e) (snd e)) (chain ps) ->
+  exists r, path_scan ps hw q = Ret r.
+Proof.
+  induction ps as [|a ps IH]; intros hw q Hok Hhw Hm; [eexists; reflexivity|].
+  destruct ps as [|b ps]; [eexists; reflexivity|].
+  change (chain (a :: b :: ps)) with ((a, b) :: chain (b :: ps)) in Hm.
+  inversion Hm as [|e es Hab Hm' E]; subst. inversion Hok as [|p l Ha Hok' E]; subst.
+  cbn [fst snd] in Hab. rewrite path_scan_cons2. cbv zeta.
+  assert (H62 : 2 ^ 62 = 4611686018427387904) by reflexivity.
+  assert (Hin : forall z, Z.abs z < 2 ^ 63 -> in_int z = true).
+  { intros z Hz. unfold in_int, int_min, int_max.
+    assert (2 ^ 63 = 9223372036854775808) by reflexivity.
+    apply andb_true_iff; split; apply Z.leb_le; lia. }
+  assert (H63 : 2 ^ 63 = 9223372036854775808) by reflexivity.
+  destruct Ha as [Hax Hay]. unfold coord_ok, px, py in Hax, Hay.
+  destruct (X a =? X b) eqn:Ex; b2p.
+  - cbn [all_in_int forallb]. unfold X in *. rewrite !Hin by lia. cbn [andb].
+    destruct (rect_contains _ _ _); [eexists; reflexivity|]. apply IH; assumption.
+  - destruct Hab as [Hab|Hab]; [unfold X, px in *; contradiction|].
+    unfold py in Hab. unfold Y. rewrite Hab, Z.eqb_refl.
+    cbn [all_in_int forallb]. rewrite <- Hab. rewrite !Hin by lia. cbn [andb].
+    destruct (rect_contains _ _ _); [eexists; reflexivity|]. apply IH; assumption.
+Qed.
+
+(** integer half-width: for integer distances, d <= w/2 (exact) iff d <= w quot 2 *)
+Lemma half_width : forall w d, 0 <= w -> (2 * d <= w <-> d <= Z.quot w 2).
+Proof.
+  intros w d Hw. rewrite Z.quot_div_nonneg by lia.
+  pose proof (Z.div_mod w 2 ltac:(lia)). pose proof (Z.mod_pos_bound w 2 ltac:(lia)). lia.
+Qed.
+
+(** must-accept: within half the width of a segment (DESIGN.md section 4) *)
+Lemma near_seg_cover : forall w a b q, 0 <= w -> manhattan_seg a b ->
+  near_seg w a b q -> seg_cover (Z.quot w 2) a b q.
+Proof.
+  intros w [ax ay] [bx by_] [qx qy] Hw Hm Hn.
+  pose proof (half_width w (Z.abs (qx - ax)) Hw) as Hx.
+  pose proof (half_width w (Z.abs (qy - ay)) Hw) as Hy.
+  assert (0 <= Z.quot w 2) by (apply Z.quot_pos; lia).
+  unfold near_seg, seg_cover, manhattan_seg, on_seg, in_seg_box, cross, px, py in *; cbn [fst snd] in *.
+  destruct Hn as [[Hc [Hbx Hby]]|[Hn|Hn]].
+  - destruct (Z.eq_dec ax bx) as [E|E].
+    + left. subst bx. replace (ax - ax) with 0 in Hc by ring.
+      assert (qx = ax) by lia. subst qx. replace (ax - ax) with 0 by ring. cbn [Z.abs]. lia.
+    + right. destruct Hm as [Hm|Hm]; [contradiction|]. subst by_.
+      replace (ay - ay) with 0 in Hc by ring.
+      assert (qy = ay) by nia. subst qy. replace (ay - ay) with 0 by ring. cbn [Z.abs]. lia.
+  - left. lia.
+  - right. lia.
+Qed.
+
+(** must-reject: Chebyshev distance above half the width from the segment *)
+Lemma cover_not_far : forall w a b q, 0 <= w ->
+  seg_cover (Z.quot w 2) a b q -> ~ far_seg w a b q.
+Proof.
+  intros w [ax ay] [bx by_] [qx qy] Hw Hc.
+  pose proof (half_width w (Z.abs (qx - ax)) Hw) as Hx.
+  pose proof (half_width w (Z.abs (qy - ay)) Hw) as Hy.
+  unfold seg_cover, far_seg, cheb_seg, dist_iv, px, py in *; cbn [fst snd] in *. lia.
+Qed.
+
+Definition path_ok (ps : list pt) (w : Z) : Prop :=
+  ps <> [] /\ Forall pt_ok ps /\ 0 <= w < 2 ^ 62 /\
+  Forall (fun e => manhattan_seg (fst e) (snd e)) (chain ps).
+
+Theorem path_contains_spec : forall ps w q, path_ok ps w ->
+  exists r, path_contains ps w q = Ret r /\
+    (r = true <-> path_cover (Z.quot w 2) ps q) /\
+    ((exists a b, In (a, b) (chain ps) /\ near_seg w a b q) -> r = true) /\
+    ((forall a b, In (a, b) (chain ps) -> far_seg w a b q) -> r = false).
+Proof.
+  intros ps w q [Hne [Hok [Hw Hm]]].
+  assert (H62 : 2 ^ 62 = 4611686018427387904) by reflexivity.
+  assert (Hhw : 0 <= Z.quot w 2 < 2 ^ 62).
+  { rewrite Z.quot_div_nonneg by lia. split; [apply Z.div_pos; lia|].
+    apply Z.div_lt_upper_bound; lia. }
+  destruct (path_scan_total ps (Z.quot w 2) q Hok Hhw Hm) as [r Hr].
+  exists r. unfold path_contains.
+  replace (in_int w) with true.
+  2:{ symmetry. unfold in_int, int_min, int_max. assert (2 ^ 63 = 9223372036854775808) by reflexivity.
+      apply andb_true_iff; split; apply Z.leb_le; lia. }
+  cbn [negb]. destruct ps as [|p ps]; [contradiction|].
+  pose proof (path_scan_spec _ _ _ _ (proj1 Hhw) Hr) as Hs.
+  split; [exact Hr|]. split; [exact Hs|]. split.
+  - intros [a [b [Hin Hn]]]. apply Hs. exists a, b. split; [exact Hin|].
+    apply near_seg_cover; [lia| |exact Hn].
+    rewrite Forall_forall in Hm. exact (Hm (a, b) Hin).
+  - intros Hfar. destruct r; [|reflexivity].
+    destruct (proj1 Hs eq_refl) as [a [b [Hin Hc]]].
+    exfalso. apply (cover_not_far w a b q); [lia|exact Hc|]. apply Hfar. exact Hin.
+Qed.
+
+(** what happens outside [path_ok] *)
+Lemma path_contains_empty : forall w q, path_contains [] w q = Panic.
+Proof. intros w q. unfold path_contains. destruct (negb (in_int w)); reflexivity. Qed.
+
+Lemma path_contains_nonmanhattan_first : forall a b ps w q,
+  in_int w = true -> px a <> px b -> py a <> py b -> path_contains (a :: b :: ps) w q = Panic.
+Proof.
+  intros a b ps w q Hw Hx Hy. unfold path_contains. rewrite Hw. cbn [negb path_scan].
+  unfold X, Y, px, py in *.
+  destruct (fst a =? fst b) eqn:E1; b2p; [contradiction|].
+  destruct (snd a =? snd b) eqn:E2; b2p; [contradiction|]. reflexivity.
+Qed.
+
+(** ** The code as found is refuted by two independent witnesses *)
 Lemma orig_refuted_vertex :
   poly_contains_orig [(0,0);(5,0);(5,4);(0,4);(1,2)] (0,2) = Ret true /\
   in_regionb [(0,0);(5,0);(5,4);(0,4);(1,2)] (0,2) = false.
